@@ -395,7 +395,14 @@ var modes = []string{"gated", "slow", "close", "gated", "resize", "slow"}
 
 func prodID(p, k int) string { return fmt.Sprintf("p%d-%d", p, k) }
 
+// blockedFound is set once a parked enqueue has been reported; the remaining
+// gated cases would each sit out the same watchdog.
+var blockedFound atomic.Bool
+
 func runAsync(r *mon.Run, idx int) {
+	if blockedFound.Load() && modes[idx%len(modes)] == "gated" {
+		return
+	}
 	rng := r.Rand(2, uint64(idx))
 	ac := asyncCase{Mode: modes[idx%len(modes)], Producers: 1 + rng.IntN(16), PerProd: 1 + rng.IntN(24)}
 	total := ac.Producers * ac.PerProd
@@ -517,6 +524,9 @@ func runAsync(r *mon.Run, idx int) {
 			if strings.Contains(g, "asyncEmitter).enqueue") && strings.Contains(strings.SplitN(g, "\n", 2)[0], "chan send") {
 				parked = true
 			}
+		}
+		if parked {
+			blockedFound.Store(true)
 		}
 		if parked && ac.Mode == "gated" {
 			r.Violation("async:enqueue-blocked:writer-gated", "a producer is parked in the emitter's channel send while the writer is gated shut (nothing can drain the queue)", witness(map[string]any{"goroutines": dump}))
